@@ -7,24 +7,6 @@ namespace TTV.Conc
 
 /-! ## thread programs as segments -/
 
-/-- a thread program between two scheduling-relevant boundaries: a whole critical section, or a `put` -/
-inductive Seg where
-  | sec (s : Section)
-  | put (x : Item)
-deriving Repr
-
-def callSteps (s : Section) : List Step := s.map fun p => Step.call p.1 p.2
-
-def segSteps : List Seg → List Step
-  | [] => []
-  | .sec s :: r => Step.acq :: (callSteps s ++ Step.rel :: segSteps r)
-  | .put x :: r => Step.put x :: segSteps r
-
-def segSecs : List Seg → List Section
-  | [] => []
-  | .sec s :: r => s :: segSecs r
-  | .put _ :: r => segSecs r
-
 theorem progSteps_eq_segSteps (p : List Section) : progSteps p = segSteps (p.map Seg.sec) := by
   induction p with
   | nil => rfl
